@@ -64,7 +64,9 @@ func ExtractTypeNameMap(v interface{}) (map[string]reflect.Type, map[string]stri
 		if _, ok := typMap[name]; ok {
 			// another value of a known type holds nothing new, unless interface slots can be
 			// reached from it, whose dynamic types differ from value to value
-			if !reachesInterface(typ, make(map[reflect.Type]bool)) {
+			// (a zero value holds nothing at all: the zero values walked in place of nil pointers
+			// and empty containers would otherwise recurse forever on a self-referential type)
+			if !reachesInterface(typ, make(map[reflect.Type]bool)) || v.IsZero() {
 				return false
 			}
 			return firstVisit(v, visited)
